@@ -326,7 +326,7 @@ RequestedPresentF(f, r, o, kept, ord, res) ==
 RequestedPresent == Done => RequestedPresentF(font, req, opts, retained, order, out)
 
 ClosureSufficient == Done => MinClosure(font, req, opts) \subseteq retained
-LfpIsLeast == pc = "prune" => MinClosure(font, req, opts) = MinClosureDecl(font, req, opts)   \* the two definitions agree
+LfpIsLeast == pc = "request" => MinClosure(font, req, opts) = MinClosureDecl(font, req, opts)   \* the two definitions agree
 (* for the abstract fonts of the exhaustive configuration (no chaos) the pipeline reaches exactly the least closure *)
 ClosureExact == Done => retained = MinClosure(font, req, opts)
 
@@ -358,5 +358,6 @@ ShapeEq(f, o, res, ord, text, tags, alt) ==
 ShapingPreservedF(f, o, res, ord, K) ==
   LET chars == Dom1(res.cmap)
       tags == SetToSeq(TagsOf(Pruned(f, o).gsub) \cup TagsOf(Pruned(f, o).gpos))
-  IN \A text \in Texts(chars, K) : \A alt \in 1..2 : ShapeEq(f, o, res, ord, text, tags, alt)
+      alts == IF \E i \in 1..Len(f.L.gsub.lookups) : f.L.gsub.lookups[i].ty = "sub3" THEN 1..2 ELSE {1}
+  IN \A text \in Texts(chars, K) : \A alt \in alts : ShapeEq(f, o, res, ord, text, tags, alt)
 =============================================================================
